@@ -11,6 +11,7 @@
 -/
 import Props.Defs
 import Proofs.Cigar
+import Proofs.CigarCounts
 namespace Coma.Props
 open Coma Coma.Spec
 
@@ -50,6 +51,26 @@ theorem C03_unrepaired_counterexample : (aggregateBuggy [Hit.M]).toOption = some
 /-- non-vacuity: the example from the project's own test data -/
 example : (cigarOf aggregate [⟨⟨1, 0⟩, ⟨1, 0⟩, 0, 0⟩, ⟨⟨3, 0⟩, ⟨3, 0⟩, 0, 0⟩]).toOption = some "1M1I1D1M" := by decide +kernel
 example : ValidMatching false (sitePairs [⟨⟨1, 0⟩, ⟨1, 0⟩, 0, 0⟩, ⟨⟨3, 0⟩, ⟨3, 0⟩, 0, 0⟩]) := by
+  simp [ValidMatching, sitePairs]
+
+/-- the operation string accounts for every label between the first and the last pair exactly
+    once: one M per listed pair, M+D = number of reference labels spanned, M+I = number of query
+    labels spanned -/
+theorem C03_counts (rev : Bool) (p : Pr) (ps : List Pr) (hv : ValidMatching rev (sitePairs (p :: ps)))
+    (hs : List Hit) (h : hitEnums (p :: ps) = .ok hs) :
+    hs.count Hit.M = (p :: ps).length ∧
+    ((hs.count Hit.M + hs.count Hit.D : Nat) : Int) = ((p :: ps).getLast (by simp)).r.site - p.r.site + 1 ∧
+    ((hs.count Hit.M + hs.count Hit.I : Nat) : Int) = (((p :: ps).getLast (by simp)).q.site - p.q.site).natAbs + 1 :=
+  Coma.Proofs.cigar_counts rev p ps hv hs h
+
+/-- non-vacuity of `C03_counts`: a reverse-strand matching of three pairs (2,9),(4,8),(5,5) with a
+    skipped reference label (3) and two skipped query labels (7,6): M D M I I M, so
+    M = 3, M+D = 4 = 5-2+1, M+I = 5 = |5-9|+1 -/
+example : (hitEnums [⟨⟨2, 0⟩, ⟨9, 0⟩, 0, 0⟩, ⟨⟨4, 0⟩, ⟨8, 0⟩, 0, 0⟩, ⟨⟨5, 0⟩, ⟨5, 0⟩, 0, 0⟩]).toOption =
+    some [Hit.M, Hit.D, Hit.M, Hit.I, Hit.I, Hit.M] := by decide +kernel
+example : ((hitEnums [⟨⟨2, 0⟩, ⟨9, 0⟩, 0, 0⟩, ⟨⟨4, 0⟩, ⟨8, 0⟩, 0, 0⟩, ⟨⟨5, 0⟩, ⟨5, 0⟩, 0, 0⟩]).toOption.map
+    fun hs => (hs.count Hit.M, hs.count Hit.D, hs.count Hit.I)) = some (3, 1, 2) := by decide +kernel
+example : ValidMatching true (sitePairs [⟨⟨2, 0⟩, ⟨9, 0⟩, 0, 0⟩, ⟨⟨4, 0⟩, ⟨8, 0⟩, 0, 0⟩, ⟨⟨5, 0⟩, ⟨5, 0⟩, 0, 0⟩]) := by
   simp [ValidMatching, sitePairs]
 
 end Coma.Props
